@@ -167,12 +167,21 @@ def r3(ctx):
         raise AnchorMissing('Mutex::new in Dictionary::create')
     t = core(init_value(b, sym(b, mx[0].args[0])))
     e = {}
-    ok = match(t, Call('Iterator::take', Call('Iterator::flat_map', ANY, Cap('clo')), Cap('n')), e) and _is_sentinel(e['n']) and has(e['n'], ('arg', 3, ANY))
+    ok = (match(t, Call('Iterator::take', Call('Iterator::flat_map', ANY, Cap('clo')), Cap('n')), e) or
+          match(t, Call('Iterator::take', Call('Iterator::flatten', Call('Iterator::map', ANY, Cap('clo'))), Cap('n')), e)) and _is_sentinel(e['n']) and has(e['n'], ('arg', 3, ANY))
     ctx.require(ok, b, 'line-iterator', 'shared iterator = path_bufs.into_iter().flat_map(lines).take(max_sequences.unwrap_or(MAX))',
                 'shared iterator is %s: the first-max_sequences cut is not part of the iterator protected by the mutex (workers racing on a separate '
                 'counter count a different number of lines for different thread counts)' % show_in(b, t), mx[0].span)
     if ok:
-        clo = closure_of(ctx, e['clo'])
+        fobj = peel(e['clo'])
+        if isinstance(fobj, tuple) and fobj and fobj[0] == 'fn':
+            # the per-file step as a named function instead of a closure
+            cands_ = [x for x in ctx.facts.bodies if norm_path(x.path) == norm_path(fobj[1])]
+            if len(cands_) != 1:
+                raise AnchorMissing('the per-file function `%s` of the line iterator' % fobj[1])
+            clo = cands_[0]
+        else:
+            clo = closure_of(ctx, e['clo'])
         crv = ret_values(clo)
         ok2 = len(crv) == 1 and has(core(crv[0][0]), Call('BufRead::lines', ANY))
         ctx.require(ok2, clo, 'lines', 'each file contributes its lines in order', None)
@@ -262,10 +271,54 @@ def r5(ctx):
         vf = variant_facts_at(l, ins[0].bb)
         st = lambda t: [n_ for tt, n_ in vf if tt == sym(l, t.dest)]
         ok = st(pulls[0]) == [{'Some'}] and st(pulls[1]) == [{'Some'}] and st(pulls[2]) == [{'None'}]
+        via_tuple = False
+        if not ok:
+            # the entry parsed by a (spliced) helper that returns Ok((word, freq)): the (Some, Some, None) test guards the construction of that
+            # tuple, and the insert is reached only through it
+            from analysis.sym import symbolizer as _sz, simplify as _sp
+            for s_ in l.stmts():
+                if s_.kind != 'assign' or s_.rv.kind != 'agg':
+                    continue
+                try:
+                    v_ = _sp(_sz(l).rvalue(s_.rv, 0, ()))
+                except Exception:
+                    continue
+                def deep(t_, d_=0):
+                    # named locals on the way (`word`, `freq`, `val`) opened up to what they were bound to
+                    out_ = [t_]
+                    if d_ < 4:
+                        for x_ in walk(t_):
+                            if isinstance(x_, tuple) and x_ and x_[0] == 'var' and len(x_) > 2:
+                                iv_ = init_value(l, x_)
+                                if iv_ != x_:
+                                    out_ += deep(iv_, d_ + 1)
+                    return out_
+                mentions = lambda comp, pull: any(has(y_, Pred(lambda x: nosite(x) == nosite(sym(l, pull.dest)))) for y_ in deep(comp))
+                if v_[0] == 'agg' and v_[1] == 'tuple' and len(v_[3]) == 2 and mentions(v_[3][0], pulls[0]) and mentions(v_[3][1], pulls[1]):
+                    vf2 = variant_facts_at(l, s_.bb)
+                    st2 = lambda t: [n_ for tt, n_ in vf2 if tt == sym(l, t.dest)]
+                    if st2(pulls[0]) == [{'Some'}] and st2(pulls[1]) == [{'Some'}] and st2(pulls[2]) == [{'None'}]:
+                        # ... and that tuple is the only success value of what the insert unpacks (every other alternative is an error)
+                        from analysis.alts import expand as _ex, flatten as _fl
+                        a1_ = core(sym(l, ins[0].args[1]))
+                        base_ = a1_[1] if a1_[0] == 'field' else a1_
+                        while isinstance(base_, tuple) and base_ and base_[0] in ('unwrap', 'ref', 'deref', 'copy', 'move') and isinstance(base_[1], tuple):
+                            base_ = base_[1]
+                        alts_ = [peel(x_.value) for x_ in _fl(_ex(ctx.facts, l, nosite(base_)))] if base_[0] in ('var', 'phi') else [peel(base_)]
+                        iserr_ = lambda y: (y[0] == 'agg' and y[1] == 'adt' and (y[2].endswith('Result::Err') or y[2].endswith('Option::None'))) or \
+                            (y[0] == 'call' and y[1].rsplit('::', 1)[-1] == 'from_residual')
+                        good_ = [y for y in alts_ if not iserr_(y)]
+                        if len(good_) == 1 and good_[0][0] == 'agg' and good_[0][1] == 'adt' and good_[0][2].endswith('Result::Ok') and \
+                                nosite(peel(good_[0][3][0])) == nosite(v_):
+                            ok = via_tuple = True
         ctx.require(ok, l, 'load-two-fields', 'load rejects lines that do not have exactly two fields', 'the insert runs under %s' % [st(t) for t in pulls])
         f0 = Pred(lambda u: has(u, Pred(lambda x: x == sym(l, pulls[0].dest))))
         f1 = Pred(lambda u: has(u, Pred(lambda x: x == sym(l, pulls[1].dest))))
         okf = match(sym(l, ins[0].args[1]), f0) and match(sym(l, ins[0].args[2]), f1)
+        if via_tuple and not okf:
+            # the two components of the helper's tuple, in order
+            a1, a2 = core(sym(l, ins[0].args[1])), core(sym(l, ins[0].args[2]))
+            okf = a1[0] == 'field' and a1[2] == 0 and a2[0] == 'field' and a2[2] == 1 and nosite(a1[1]) == nosite(a2[1])
         ctx.require(okf, l, 'load-fields', 'load inserts (field 0, parsed field 1)', None)
     else:
         ctx.require(ok, l, 'load-two-fields', 'load rejects lines that do not have exactly two fields', None)
@@ -274,6 +327,21 @@ def r5(ctx):
     # save iterates all entries
     wr = [t for t in s.calls(r'write_fmt$')]
     ctx.require(len(wr) == 1 and cfg.innermost_loop(s, wr[0].bb) is not None, s, 'save-all', 'save writes one line per entry', None)
+    # the file save() writes holds nothing but this dictionary: it is created / truncated, never opened over old contents or for appending
+    # (a longer file left from an earlier save keeps its tail, and load() reads entries that are not in the dictionary)
+    creates = [t for t in s.calls(r'fs::File::create$|File::create_new$|fs::write$')]
+    opens = [t for t in s.calls(r'OpenOptions::open$')]
+    if not creates and not opens:
+        raise AnchorMissing('Dictionary::save: how the output file is opened')
+    for t in opens:
+        chain_ = chain_names(sym(s, t.args[0])) if t.args else []
+        tr = [u for u in s.calls(r'OpenOptions::truncate$') if match(core(sym(s, u.args[1])), Const(1))]
+        ap = [u for u in s.calls(r'OpenOptions::append$') if match(core(sym(s, u.args[1])), Const(1))]
+        ctx.require(bool(tr) and not ap, s, 'save-truncates', 'save() opens its file truncating',
+                    'save() opens its file with OpenOptions %s: old contents beyond the new entries stay in the file and are read back by load()' % (
+                        'in append mode' if ap else 'without truncate(true)'), t.span)
+    if creates and not opens:
+        ctx.ok(s, 'save() creates (truncates) its file with %s' % (creates[0].callee_res() or '').rsplit('::', 2)[-2], creates[0].span)
 
 
 @rule('C20', 'R-C20-6', 'T13 PAIR (get_closest)',
@@ -345,9 +413,13 @@ def r7(ctx):
       'CharString::new, edit::distance(s), ...) has the same value: average length, candidate distances and normalisation all count '
       'the same characters. A site that switches to code points disagrees with its siblings on every entry with a combining mark or CRLF')
 def r8(ctx):
+    segmentation_flags_agree(ctx, lambda b: b.file() == 'src/dictionary.rs', 'src/dictionary.rs', 'the dictionary module')
+
+
+def segmentation_flags_agree(ctx, in_scope, where, what):
     sites = []
     for b in ctx.facts.bodies:
-        if b.file() != 'src/dictionary.rs' or b.span['exp'] or b.path in ctx.facts.inlined_paths:
+        if not in_scope(b) or b.span['exp'] or b.path in ctx.facts.inlined_paths:
             continue
         ctx.stats['bodies_inspected'].add(b.path)
         for t in b.terms('call'):
@@ -362,15 +434,15 @@ def r8(ctx):
                 if v[0] == 'const' and len(v) > 2 and v[2] in (0, 1):
                     sites.append((b, t, bool(v[2])))
     if len(sites) < 2:
-        raise AnchorMissing('constant segmentation flags in src/dictionary.rs (found %d, expected at least the average-length and the get_closest site)' % len(sites))
+        raise AnchorMissing('constant segmentation flags in %s (found %d, expected at least two)' % (where, len(sites)))
     vals = {v for _, _, v in sites}
     major = max(vals, key=lambda x: sum(1 for s_ in sites if s_[2] == x))
     for b, t, v in sites:
         ctx.require(v == major, b, 'segmentation-flag|' + norm_path(b.path).rsplit('::', 1)[-1] + '|' + (t.callee_res() or '').rsplit('::', 1)[-1],
-                    '%s (line %d) segments with use_graphemes = %s like the other sites of the dictionary module' % ((t.callee_res() or '').rsplit('::', 2)[-1], t.span['line'], major),
-                    '%s at line %d is called with use_graphemes = %s while the other %d sites of src/dictionary.rs use %s: lengths and distances are measured in '
+                    '%s (line %d) segments with use_graphemes = %s like the other sites of %s' % ((t.callee_res() or '').rsplit('::', 2)[-1], t.span['line'], major, what),
+                    '%s at line %d is called with use_graphemes = %s while the other %d sites of %s use %s: lengths and distances are measured in '
                     'different units (a cluster of several code points counts once at one site and several times at the other)' % (
-                        (t.callee_res() or '').rsplit('::', 2)[-1], t.span['line'], v, len(sites) - 1, major), t.span)
+                        (t.callee_res() or '').rsplit('::', 2)[-1], t.span['line'], v, len(sites) - 1, where, major), t.span)
 
 
 @rule('C20', 'R-C20-9', 'prerequisite (the distance get_closest minimises)',
@@ -471,19 +543,40 @@ def r12(ctx):
     if segs is None:
         raise AnchorMissing('text::split_words: the result as a sequence')
     ok = len(segs) == 1 and segs[0].kind == 'each' and not segs[0].conds and match(core(segs[0].src), Call('str::split_whitespace', ('arg', 1, ANY)))
+    loop_form = False
+    if not ok and len(segs) == 1 and segs[0].kind == 'nest' and not segs[0].conds and match(core(segs[0].src), Call('str::split_whitespace', ('arg', 1, ANY))):
+        # the explicit loop: per word exactly one push -- two pushes under complementary conditions (`if parts.is_empty() { (w, None) } else { (w, Some(parts)) }`)
+        inn = segs[0].inner
+        if len(inn) == 1 and inn[0].kind == 'one' and not inn[0].conds:
+            ok = loop_form = True
+        elif len(inn) == 2 and all(x.kind == 'one' and len(x.conds) == 1 for x in inn) and nosite(inn[0].conds[0][0]) == nosite(inn[1].conds[0][0]) and \
+                inn[0].conds[0][1] != inn[1].conds[0][1]:
+            ok = loop_form = True
     ctx.require(ok, b, 'every-word', 'split_words: one entry per element of s.split_whitespace()', 'split_words builds %s' % [repr(x)[:160] for x in segs])
     if not ok:
         return
-    e = peel(segs[0].elem)
-    ok = e[0] == 'agg' and e[1] == 'tuple' and len(e[3]) == 2 and core(e[3][0]) == ITEM
-    ctx.require(ok, b, 'word-entry', 'split_words: the entry is (word, parts)', 'the entry is %s' % show_in(b, e)[:160])
+    entries = [segs[0]] if not loop_form else list(segs[0].inner)
+    for en_ in entries:
+        e = peel(en_.elem)
+        ok = e[0] == 'agg' and e[1] == 'tuple' and len(e[3]) == 2 and core(e[3][0]) == ITEM
+        ctx.require(ok, b, 'word-entry', 'split_words: the entry is (word, parts)', 'the entry is %s' % show_in(b, e)[:160])
+        if loop_form and ok and en_.conds:
+            second = peel(e[3][1])
+            c_, p_ = en_.conds[0]
+            emp_ = core(c_)[0] == 'call' and core(c_)[1].rsplit('::', 1)[-1] == 'is_empty'
+            if second[0] == 'agg' and second[1] == 'adt' and second[2].endswith('Option::None'):
+                ctx.require(emp_ and p_ is True, b, 'none-only-without-parts', 'a word gets None only when it has no part', None)
+            elif second[0] == 'agg' and second[1] == 'adt' and second[2].endswith('Option::Some'):
+                ctx.require(emp_ and p_ is False, b, 'some-iff-parts', 'a word with parts gets Some(parts)', None)
     # the parts: inside the per-word closure, collect(map(find_iter(re, word), |m| (m.as_str(), m.start()))) and Some(parts) iff non-empty
-    clos = closures_in(ctx, b)
+    clos = closures_in(ctx, b) + ([b] if loop_form else [])
     found = 0
+    word_item = ('unwrap', ANY) if loop_form else ('arg', 2, ANY)
     for c in clos:
         for t in c.calls(r'Regex::find_iter$'):
             found += 1
-            ctx.require(match(core(sym(c, t.args[1])), ('arg', 2, ANY)), c, 'parts-of-the-word', 'the parts are searched in the word itself',
+            okw_ = match(core(sym(c, t.args[1])), ('arg', 2, ANY)) if c is not b else has(sym(c, t.args[1]), Call('::next', ANY))
+            ctx.require(okw_, c, 'parts-of-the-word', 'the parts are searched in the word itself',
                         'find_iter runs over %s' % show_in(c, sym(c, t.args[1]))[:80], t.span)
             # every consumer between find_iter and the collect is a map (no filter / take / skip / step_by)
             bad = [u for u in c.calls(r'Iterator::(filter|filter_map|take|skip|step_by|take_while|skip_while|rev|dedup\w*)$|Itertools::(unique|dedup)\w*$|Vec::(truncate|dedup\w*|retain|pop|remove|drain)$')]
@@ -524,3 +617,41 @@ def r12(ctx):
         core_ = re.sub(r'\)+$', '', core_)
         ctx.require(core_.startswith('\\b') and core_.endswith('\\b'), b, 'parts-delimited', 'the word-part pattern is anchored with \\b on both sides',
                     'the word-part pattern `%s` is not anchored at word boundaries on both sides: letter runs touching a digit (`mp3`, `3d`) are counted as words' % inner[:80], res[0].span)
+
+
+@rule('C20', 'R-C20-13', 'T5 (the reducer waits for every worker)',
+      'Dictionary::create folds the per-line counts with blocking receives only: the fold ends when all workers have dropped their senders, not when they are slow')
+def r13(ctx):
+    from rules.common import blocking_receives_only
+    blocking_receives_only(ctx, ctx.body(D + 'create').path, 'Dictionary::create')
+
+
+@rule('C20', 'R-C20-14', 'T1 ORDER (character n-grams are windows over ALL characters of the word)',
+      'in character mode the windows of char_grams characters run over <bow> + every grapheme of the word + <eow> (the markers only for n > 1); which windows '
+      'are counted is decided per window by its centre. Dropping characters BEFORE the windows are cut (digits, symbols) makes neighbours out of characters '
+      'that are not adjacent in the word: n-grams are counted that do not occur')
+def r14(ctx):
+    from analysis.seq import seq_of_var, ITEM
+    root = ctx.body(D + 'create').path
+    sites = []
+    for b in ctx.facts.bodies:
+        if b.kind == 'Closure' and (getattr(b, 'root', None) == root or (b.parent or '').startswith(root)):
+            for t in b.calls(r'slice::windows$'):
+                sites.append((b, t))
+    if len(sites) != 1:
+        raise AnchorMissing('the windows(char_grams) call of Dictionary::create (found %d)' % len(sites))
+    b, t = sites[0]
+    r = core(sym(b, t.args[0]))
+    segs = seq_of_var(ctx.facts, b, r[2]) if r[0] == 'var' and len(r) > 2 else None
+    if segs is None:
+        raise AnchorMissing('Dictionary::create: the character list the windows are cut from, as a sequence')
+    body_ = [s_ for s_ in segs if s_.kind == 'each']
+    marks = [s_ for s_ in segs if s_.kind == 'one']
+    ok = len(body_) == 1 and match(core(body_[0].src), Call('CharString::split', ANY, Const(1))) and core(body_[0].elem) == ITEM and len(segs) == len(body_) + len(marks)
+    ctx.require(ok, b, 'ngram-source', 'the windows are cut from [<bow>] + CS::split(word, true) + [<eow>]', 'the windows are cut from %s' % [repr(x)[:100] for x in segs], t.span)
+    if ok:
+        ctx.require(not body_[0].conds, b, 'ngram-all-characters', 'every character of the word takes part in the windows',
+                    'characters are dropped before the windows are cut (only those with %s stay): the neighbours inside a window are then not neighbours in the word' % (
+                        [('' if p_ else '!') + show_in(b, c_)[:60] for c_, p_ in body_[0].conds]), t.span)
+        w = core(sym(b, t.args[1]))
+        ctx.require(has(w, ('upvar', ANY, ANY)) or has(w, Pred(lambda u: u[0] in ('upvar', 'var') and 'char_grams' in str(u))), b, 'ngram-width', 'the window width is char_grams', None, t.span)
